@@ -340,6 +340,51 @@ fn special_cases(acc: &mut Acc) {
     check("non-utf8-file", "bad.scm", &move || {
         let _ = std::fs::write(d3.join("bad.scm"), b"(import (scheme base))\n(define a \"\xff\xfe\")\n");
     });
+    // scale ladders: the failing form's message has every length up to ~700 bytes (values of k
+    // characters quoted in it, 1- and 2-byte characters); the failing form sits on line k / after k
+    // successful forms. Status, the single FILE:LINE:COL diagnostic and the message of the library
+    // interface must be the same at every size.
+    let mut ladder: Vec<(String, String, u32)> = vec![];
+    for k in 1..=300usize {
+        ladder.push((format!("message-length k={} (string)", k), format!("{}\n(car \"{}{}\")\n", HEADER, if k % 2 == 0 { "a" } else { "" }, "é".repeat(k)), 2));
+        ladder.push((format!("message-length k={} (list)", k), format!("{}\n(vector-ref '({}) 0)\n", HEADER, (1..=k).map(|i| i.to_string()).collect::<Vec<_>>().join(" ")), 2));
+        ladder.push((format!("message-length k={} (arguments)", k), format!("{}\n((lambda (a b) a) {})\n", HEADER, (1..=k + 2).map(|i| i.to_string()).collect::<Vec<_>>().join(" ")), 2));
+        ladder.push((format!("line-number k={}", k), format!("{}\n{}(car '())\n", HEADER, "(define filler 1)\n".repeat(k)), k as u32 + 2));
+        ladder.push((format!("blank-lines k={}", k), format!("{}\n{}(undefined-procedure 1)\n", HEADER, "\n".repeat(k)), k as u32 + 2));
+    }
+    for (name, text, line) in ladder {
+        acc.evals += 1;
+        acc.count("scale ladder (message length / line number)", 1);
+        let _ = std::fs::create_dir_all(&dir);
+        if std::fs::write(dir.join("ladder.scm"), text.as_bytes()).is_err() {
+            continue;
+        }
+        let t2 = text.clone();
+        let inproc = guarded(move || {
+            let mut it = Interpreter::<f32>::default();
+            it.eval(t2.chars())
+        });
+        let msg = match inproc {
+            Ok(Err(e)) => format!("{}", e),
+            other => {
+                acc.mismatch(Mismatch { idx: u64::MAX - 11, case: format!("[{}]", name), expected: ": the library interface reports an error".into(), observed: format!("{:?}", other.map(|r| r.map(|v| v.map(|x| x.to_string())).map_err(|e| e.to_string()))), payload: json!({"special": name}) }, None);
+                continue;
+            }
+        };
+        match run_binary("ladder.scm", &dir) {
+            Ok(r) => {
+                let diag = parse_diag(&r.stderr, "ladder.scm");
+                let ok = r.code.map(|c| c != 0).unwrap_or(false) && r.stdout.is_empty() && r.stderr.lines().count() == 1 && matches!(diag, Ok((l, _)) if l == line) && r.stderr.contains(&msg);
+                if !ok {
+                    acc.mismatch(
+                        Mismatch { idx: u64::MAX - 11, case: format!("[{}] {}", name, if text.len() > 300 { format!("{} ... ({} bytes)", &text.chars().take(200).collect::<String>(), text.len()) } else { text.clone() }), expected: format!(": non-zero status, empty stdout, one diagnostic ladder.scm:{}:COL with the message {:?}", line, msg), observed: format!("exit {:?} stdout {:?} stderr {:?}", r.code, r.stdout, r.stderr), payload: json!({"special": name}) },
+                        None,
+                    );
+                }
+            }
+            Err(e) => acc.mismatch(Mismatch { idx: u64::MAX - 11, case: name.clone(), expected: "binary runs".into(), observed: e, payload: json!({"special": name}) }, None),
+        }
+    }
     let _ = std::fs::remove_dir_all(&dir);
 }
 
@@ -385,7 +430,7 @@ pub fn run(ctx: &Ctx) -> i32 {
             tier: ctx.tier_name(),
             seed: ctx.seed,
             exhaustive: true,
-            rule: format!("every program file = import line + every sequence of <= {} forms from a menu of {} (displays of an integer / symbol / improper list / string, newline, definition, silent expression, a procedure that displays called twice, a multi-line form, 9 failing forms) x LF/CRLF x final newline or none x working directory = program directory or elsewhere x 5 rotating inter-form layouts (newline, blank lines, indentation, trailing comment + tab, full-line comment) (the longest programs get a rotating pair of the 8 variants), run through the built binary; every program without a failing form of <= 2 forms additionally ending in each of {} texts that cannot be read (stray unquote, unterminated string / list / vector, dangling quote, stray parenthesis, lone #, ...); plus missing file, directory as file, non-UTF-8 file; distinct = distinct (stdout, status) observations", max_forms, MENU.len(), BROKEN_TAILS.len()),
+            rule: format!("every program file = import line + every sequence of <= {} forms from a menu of {} (displays of an integer / symbol / improper list / string, newline, definition, silent expression, a procedure that displays called twice, a multi-line form, 9 failing forms) x LF/CRLF x final newline or none x working directory = program directory or elsewhere x 5 rotating inter-form layouts (newline, blank lines, indentation, trailing comment + tab, full-line comment) (the longest programs get a rotating pair of the 8 variants), run through the built binary; every program without a failing form of <= 2 forms additionally ending in each of {} texts that cannot be read (stray unquote, unterminated string / list / vector, dangling quote, stray parenthesis, lone #, ...); plus missing file, directory as file, non-UTF-8 file; scale ladders: a failing form whose message quotes a value of every length k <= 300 (2-byte characters at both parities, lists, argument lists), the failing form on every line up to 302; distinct = distinct (stdout, status) observations", max_forms, MENU.len(), BROKEN_TAILS.len()),
             bounds: json!({"programs": total, "max_forms": max_forms}),
             assumptions: vec!["refsem's printer for integers, symbols, strings and lists (where the output format is not in question)".into()],
             wall_s: ctx.elapsed(),
